@@ -3,8 +3,8 @@
 package props
 
 import (
-	"strings"
 	"fmt"
+	"strings"
 	"sync"
 	"testing"
 
@@ -218,10 +218,10 @@ func (s *scriptSource) Int63() int64 { return int64(s.Uint64() >> 1) }
 func (s *scriptSource) Seed(int64)   {}
 
 type c07Step struct {
-	K      string `json:"k"`       // est | del | modrej (removal of a CHOOSE PDR in a modification that is rejected) | modrem (accepted)
-	Mode   string `json:"mode"`    // fresh | zero | collide | const
-	R      int    `json:"r"`       // number of colliding draws before a fresh one
-	Choose int    `json:"choose"`  // number of CHOOSE F-TEID PDRs
+	K      string `json:"k"`      // est | del | modrej (removal of a CHOOSE PDR in a modification that is rejected) | modrem (accepted)
+	Mode   string `json:"mode"`   // fresh | zero | collide | const
+	R      int    `json:"r"`      // number of colliding draws before a fresh one
+	Choose int    `json:"choose"` // number of CHOOSE F-TEID PDRs
 	Sess   int    `json:"sess"`
 }
 
